@@ -4,6 +4,7 @@ scalars and lists, null-valued constraints, missing fields."""
 import datetime
 
 from vt.gens import frames as F
+from vt.gens import strings as S
 from vt.oracles import constraint_semantics as CS
 
 PRECISIONS = [None, None, 'closed', 'open', 'fuzzy']
@@ -117,7 +118,14 @@ def field_constraints(rng, col, rex_pool=None):
             else:
                 av = vals + ['extra']
             out['allowed_values'] = av
-        if r() < 0.4:
+        fam_ = S.backref_family_for(ss)
+        if fam_ and r() < 0.8:
+            # several expressions, the later ones with back-references or group conditionals: each expression is a
+            # pattern of its own (group numbers do not carry over from one to the next)
+            out['rex'] = list(fam_['rex'])
+            if r() < 0.25:
+                out['rex'] = out['rex'][::-1]
+        elif r() < 0.4:
             out['rex'] = rng.choice(rex_pool or [['^.*$'], ['^[a-zA-Z0-9]*$'], ['^\\d+$', '^[a-z]+$'], ['^$'],
                                                  ['^[^\\d]*$'], ['^.{0,3}$', '^.{5,}$']])
     if fam != 'string' and r() < 0.12:
@@ -139,10 +147,19 @@ def constraint_set(rng, spec, missing_field=False):
     fields = {}
     for col in spec['cols']:
         fc = field_constraints(rng, col)
+        if fc and rng.random() < 0.5:
+            # the order in which a field's constraint kinds are written is not part of their meaning
+            items = list(fc.items())
+            rng.shuffle(items)
+            fc = dict(items)
         if fc:
             fields[col['name']] = fc
     if missing_field:
         fields['no_such_field_%d' % rng.randrange(100)] = {'type': 'int', 'min': 0, 'max_nulls': 0}
+    if len(fields) > 1 and rng.random() < 0.3:
+        items = list(fields.items())
+        rng.shuffle(items)              # ... nor is the order of the fields (it need not be the frame's column order)
+        fields = dict(items)
     return {'fields': fields}
 
 
